@@ -157,11 +157,18 @@ def bad_targets(chk, cls, prop, tilt, allow_other=None, opp=False):
 
 
 def translation(chk, cls, prop, tilt, rng, opp):
-    for _ in range(2):
+    for trial in range(3):
         obj, _ = Z.make(cls, tilt=tilt, opposing=opp)
         p0, s0, c0 = geometry(obj)
         tgt = np.array([float(x) for x in rng.integers(-8, 9, 3)]) / 2
         given = tgt.copy()
+        if trial == 2:
+            # the target handed over as a VIEW of the shape's own data (one of its vertices / its current centre array): still just a point
+            src = obj.vertices if hasattr(obj, "vertices") else None
+            if src is None or not isinstance(src, np.ndarray):
+                continue
+            given = src[len(src) // 2]
+            tgt = np.array(given, float).copy()
         if cls in Z.VERTEX_CLASSES:
             C.excname(C03.full_observe, obj)          # (everything read once before the move: memoised answers must move along)
         st, _ = C.excname(setattr, obj, prop, given)
@@ -181,6 +188,9 @@ def translation(chk, cls, prop, tilt, rng, opp):
             C03.compare(chk, cls, ["read:observables", "set:%s=%r" % (prop, tgt.tolist())], obj)
         # the array that was assigned stays the caller's: later size changes of the shape must not write into it, and the caller
         # re-using it must not move the shape (nor any other shape that was given the same array)
+        if trial == 2:
+            chk.count("translation:target-is-a-view-of-own-vertices")
+            continue
         size_prop = next((q for q in ("volume", "area", "radius", "a") if q in Z.settable_properties(obj)), None)
         if size_prop is not None:
             st2, _ = C.excname(lambda: setattr(obj, size_prop, 1.5 * float(getattr(obj, size_prop))))
